@@ -398,8 +398,8 @@ def case_worker(items):
         real_out, real_err = (out1, None) if out1 is not None else real_roundtrip(d)
         if real_out is None:
             res["real_err"] += 1
-        else:
-            real_out = ui_reduce(real_out)
+        # (the model's round trip carries the `_ui` entries in full: position from the input,
+        #  type / config from Rpft.Document.nodeUi — compared with the real output as it is)
         agree = False
         if isinstance(m, dict) and "ok" in m and real_out is not None:
             try:
